@@ -669,3 +669,805 @@ class _Items(Sym):
 
 
 CONTRACTS.append(ByKeyCall())
+
+
+# ============================================================================= _FileModifyProxy / _DocProxy: dry-run frame
+
+
+class FxCtx(Ctx):
+    """externals of the proxy methods: every file-system mutation is recorded in the ghost effect list `fx`"""
+
+    def __init__(self, contract, case):
+        super().__init__(contract, case)
+        g = self.ghost
+        g["fx"] = []
+
+        def rec(name):
+            def f(interp, *a, **k):
+                g["fx"].append((name, a, k))
+                return None
+            return f
+        for fn, nm in ((shutil.copy, "shutil.copy"), (shutil.copymode, "shutil.copymode"), (shutil.copy2, "shutil.copy2"), (os.remove, "os.remove"),
+                       (os.symlink, "os.symlink"), (os.chown, "os.chown")):
+            self.externals[fn] = rec(nm)
+        self.externals[shutil.copytree] = self.x_copytree
+        self.externals[os.path.islink] = lambda interp, p: SBool(z3.Bool("src_is_link"))
+        self.externals[os.path.isfile] = lambda interp, p: SBool(z3.Bool(interp.ex.fresh_name("isfile")))
+        self.externals[os.readlink] = lambda interp, p: SPathTok("link-target")
+        self.externals[os.stat] = lambda interp, p: SStat()
+        self.externals[os.path.relpath] = lambda interp, *a, **k: OpaqueStr()
+        self.externals[os.walk] = lambda interp, top, *a, **k: SWalk(top)
+        self.externals[os.path.join] = lambda interp, *parts: SPathTok(("join",) + tuple(parts))
+
+    def x_copytree(self, interp, src, dst, **kw):
+        """shutil.copytree contract: ALWAYS creates the destination directories itself, then calls copy_function for every file"""
+        self.ghost["fx"].append(("shutil.copytree:makedirs", (dst,), {}))
+        cf = kw.get("copy_function")
+        if cf is not None:
+            interp.call(cf, [SPathTok(("file-under", src)), SPathTok(("file-under", dst))], {})
+        return dst
+
+
+class SPathTok(Sym):
+    def __init__(self, what):
+        self.what = what
+
+    def sym_isinstance(self, ex, cls):
+        return cls in (str, object)
+
+    def sym_binop(self, ex, op, other, reflected=False):
+        if op == "Add" and other == "~" and not reflected:
+            return SPathTok(("backup", self))
+        raise Unsupported("path arithmetic")
+
+
+class SStat(Sym):
+    def sym_getattr(self, ex, name):
+        if name in ("st_size", "st_uid", "st_gid"):
+            return 1
+        raise Unsupported(name)
+
+
+class SWalk(Sym):
+    def __init__(self, top):
+        self.top = top
+
+    def sym_iter(self, ex):
+        n = z3.Int("n_walk")
+        ex.assume(n >= 0)
+        return CutSeq(n, lambda interp, i: (SPathTok(("walk-dir", self.top)), [], SFileNames(i)), label="os.walk(src)")
+
+
+class SFileNames(Sym):
+    def __init__(self, i):
+        self.i = i
+
+    def sym_iter(self, ex):
+        n = z3.Int(f"n_files_{self.i}")
+        ex.assume(n >= 0)
+        return CutSeq(n, lambda interp, j: SPathTok(("file", j)), label="filenames")
+
+
+def stub_safe_relpath(interp, b):
+    return OpaqueStr()
+
+
+def mk_file_proxy(interp, dry_run, root, permissions=False, times=False, follow_symlinks=True, owner=False, group=False, stats=False):
+    rp = interp.repo
+    rp.load(SY)
+    o = Obj(rp.classes[f"{SY}._FileModifyProxy"])
+    o.fields.update(root=root, follow_symlinks=follow_symlinks, permissions=permissions, times=times, owner=owner, group=group, dry_run=dry_run,
+                    stats=dict(num_files=0, volume=0) if stats else None)
+    return o
+
+
+class ProxyMethod(Contract):
+    """dry_run => no file-system effect and normal return whenever the live run returns normally; live => the documented effect"""
+    ctx_class = FxCtx
+    properties = ("C15",)
+    method = None
+    inline_all = (f"{SY}._FileModifyProxy._copy", f"{SY}._FileModifyProxy._copy_p", f"{SY}._FileModifyProxy._copy2", f"{SY}._FileModifyProxy._remove",
+                  f"{SY}._FileModifyProxy.remove", f"{SY}._FileModifyProxy.copy", f"{SY}._log_more")
+    callees = {"signac._utility._safe_relpath": stub_safe_relpath}
+
+    @property
+    def inline(self):
+        return tuple(q for q in self.inline_all if q != self.target)
+
+    def post_common(self, interp, case, outcome, live_effects):
+        ex, g = interp.ex, interp.ctx.ghost
+        fx = [e[0] for e in g["fx"]]
+        if case["dry_run"]:
+            ex.oblige(self.oname("frame:dry_run_has_no_file_system_effect"), z3.BoolVal(fx == []), note=str(fx))
+            ex.oblige(self.oname("ensures:dry_run_completes_like_the_live_run"), z3.BoolVal(outcome[0] == "return" or case.get("live_raises", False)), note=repr(outcome[1]))
+        else:
+            if outcome[0] == "return":
+                ex.oblige(self.oname("ensures:live_run_performs_exactly_the_documented_effects"), z3.BoolVal(fx == live_effects), note=str(fx))
+
+
+class PxCopy(ProxyMethod):
+    target = f"{SY}._FileModifyProxy.copy"
+
+    def cases(self):
+        out = []
+        for dry in (True, False):
+            for root in (None, "ROOT"):
+                for perm, times in ((False, False), (True, False), (True, True), (False, True)):
+                    for follow in (True, False):
+                        out.append({"dry_run": dry, "root": root, "permissions": perm, "times": times, "follow": follow, "live_raises": (not perm and times)})
+        return out
+
+    def setup(self, interp, case):
+        o = mk_file_proxy(interp, case["dry_run"], SPathTok("root") if case["root"] else None, case["permissions"], case["times"], case["follow"])
+        return [o, SPathTok("src"), SPathTok("dst")], {}, {}
+
+    def post(self, interp, case, pre, outcome):
+        ex, g = interp.ex, interp.ctx.ghost
+        fx = [e[0] for e in g["fx"]]
+        if outcome[0] == "raise" and not (isinstance(outcome[1], ValueError) and case["live_raises"]):
+            ex.oblige(self.oname("raises:only_ValueError_for_times_without_permissions"), False, note=repr(outcome[1]))
+        if case["dry_run"]:
+            ex.oblige(self.oname("frame:dry_run_has_no_file_system_effect"), z3.BoolVal(fx == []), note=str(fx))
+        elif outcome[0] == "return":
+            allowed = {(False, False): ["shutil.copy"], (True, False): ["shutil.copy", "shutil.copymode"], (True, True): ["shutil.copy2"]}
+            linkfx = [["os.symlink"], ["os.remove", "os.symlink"]]
+            ok = fx == allowed.get((case["permissions"], case["times"])) or (not case["follow"] and fx in linkfx)
+            ex.oblige(self.oname("ensures:live_copy_uses_the_copy_primitive_selected_by_permissions_and_times"), z3.BoolVal(ok), note=str(fx))
+
+
+class PxCopytree(ProxyMethod):
+    target = f"{SY}._FileModifyProxy.copytree"
+
+    def cases(self):
+        return [{"dry_run": d, "root": r} for d in (True, False) for r in (None, "ROOT")]
+
+    def loops(self, case):
+        # (only used once copytree walks the tree itself in a dry run)
+        inv = lambda interp, fr, i, seq: z3.BoolVal(True)
+        return {"os.walk(src)": LoopSpec("walk", inv, havoc={}, scratch=("root", "dirs", "files", "_", "dirpath", "dirnames", "filenames")),
+                "filenames": LoopSpec("files", inv, havoc={}, scratch=("fn", "filename", "name")),
+                "files": LoopSpec("files", inv, havoc={}, scratch=("fn", "filename", "name"))}
+
+    def setup(self, interp, case):
+        o = mk_file_proxy(interp, case["dry_run"], SPathTok("root") if case["root"] else None)
+        return [o, SPathTok("srcdir"), SPathTok("dstdir")], {}, {}
+
+    def post(self, interp, case, pre, outcome):
+        ex, g = interp.ex, interp.ctx.ghost
+        fx = [e[0] for e in g["fx"]]
+        if outcome[0] == "raise":
+            ex.oblige(self.oname("raises:nothing"), False, note=repr(outcome[1]))
+        if case["dry_run"]:
+            ex.oblige(self.oname("frame:dry_run_creates_no_directories_and_copies_no_files"), z3.BoolVal(fx == []), note=str(fx))
+        elif outcome[0] == "return":
+            ex.oblige(self.oname("ensures:live_copytree_creates_the_tree_and_copies_files_through_copy"), z3.BoolVal(fx[:1] == ["shutil.copytree:makedirs"] and "shutil.copy" in fx), note=str(fx))
+
+
+class PxRemove(ProxyMethod):
+    target = f"{SY}._FileModifyProxy.remove"
+
+    def cases(self):
+        return [{"dry_run": d} for d in (True, False)]
+
+    def setup(self, interp, case):
+        return [mk_file_proxy(interp, case["dry_run"], None), SPathTok("p")], {}, {}
+
+    def post(self, interp, case, pre, outcome):
+        self.post_common(interp, case, outcome, ["os.remove"])
+
+
+class SDocState(Sym):
+    """the real document behind a _DocProxy: ghost list of mutations"""
+
+    def __init__(self, log):
+        self.log = log
+
+    def sym_setitem(self, ex, k, v):
+        self.log.append(("setitem", k, v))
+
+    def sym_getitem(self, ex, k):
+        return SPathTok(("docvalue", k))
+
+    def sym_getattr(self, ex, name):
+        if name == "clear":
+            return NativeStub(lambda: self.log.append(("clear",)), "doc.clear")
+        if name == "keys":
+            return NativeStub(lambda: SKeyList(), "doc.keys")
+        raise Unsupported(f"doc.{name}")
+
+
+class SKeyList(Sym):
+    def sym_iter(self, ex):
+        n = z3.Int("n_keys")
+        ex.assume(n >= 0)
+        return CutSeq(n, lambda interp, i: SPathTok(("key", i)), label="other.keys()")
+
+
+class DocProxyMethod(Contract):
+    ctx_class = FxCtx
+    properties = ("C15", "C14")
+    inline = (f"{SY}._log_more", f"{SY}._DocProxy.__setitem__", f"{SY}._DocProxy.__getitem__")
+
+    def cases(self):
+        return [{"dry_run": d} for d in (True, False)]
+
+    def mk(self, interp, case):
+        rp = interp.repo
+        rp.load(SY)
+        log = []
+        o = Obj(rp.classes[f"{SY}._DocProxy"])
+        o.fields.update(doc=SDocState(log), dry_run=case["dry_run"])
+        interp.ctx.ghost["doclog"] = log
+        return o
+
+    def post(self, interp, case, pre, outcome):
+        ex, log = interp.ex, interp.ctx.ghost["doclog"]
+        if outcome[0] == "raise":
+            ex.oblige(self.oname("raises:nothing"), False, note=repr(outcome[1]))
+        if case["dry_run"]:
+            ex.oblige(self.oname("frame:dry_run_leaves_the_document_untouched"), z3.BoolVal(log == []), note=str(log)[:200])
+        else:
+            ex.oblige(self.oname("ensures:live_run_mutates_the_document"), z3.BoolVal(self.live_ok(log)), note=str(log)[:200])
+
+
+class DpSetitem(DocProxyMethod):
+    target = f"{SY}._DocProxy.__setitem__"
+    inline = (f"{SY}._log_more",)
+
+    def setup(self, interp, case):
+        return [self.mk(interp, case), SPathTok("k"), SPathTok("v")], {}, {}
+
+    def live_ok(self, log):
+        return len(log) == 1 and log[0][0] == "setitem"
+
+
+class DpClear(DocProxyMethod):
+    target = f"{SY}._DocProxy.clear"
+
+    def setup(self, interp, case):
+        return [self.mk(interp, case)], {}, {}
+
+    def live_ok(self, log):
+        return log == [("clear",)]
+
+
+class DpUpdate(DocProxyMethod):
+    target = f"{SY}._DocProxy.update"
+
+    def loops(self, case):
+        def inv(interp, fr, i, seq):
+            # dry run: nothing has been written so far
+            return z3.BoolVal(True)
+
+        def frame(interp, fr, writes):
+            log = interp.ctx.ghost["doclog"]
+            if case["dry_run"]:
+                interp.ex.oblige(self.oname("frame:dry_run_leaves_the_document_untouched"), z3.BoolVal(log == []), note=str(log)[:200])
+            else:
+                interp.ex.oblige(self.oname("body:each_key_is_assigned_once"), z3.BoolVal(len(log) == 1 and log[0][0] == "setitem"))
+        return {"other.keys()": LoopSpec("keys", inv, havoc={}, scratch=("key",), heap_frame=frame)}
+
+    def setup(self, interp, case):
+        return [self.mk(interp, case), SDocState([])], {}, {}
+
+    def live_ok(self, log):
+        return True
+
+
+CONTRACTS += [PxCopy(), PxCopytree(), PxRemove(), DpSetitem(), DpClear(), DpUpdate()]
+
+
+# ============================================================================= sync_jobs / sync_projects: option forwarding (wiring contracts)
+
+
+class SJobStub(Sym):
+    def __init__(self, tag, g):
+        self.tag, self.g = tag, g
+        self.doc = SDocHandle(tag)
+
+    def sym_getattr(self, ex, name):
+        from signac.job import Job
+        g = self.g
+        if name in ("FN_STATE_POINT", "FN_DOCUMENT"):
+            return getattr(Job, name)
+        if name == "path":
+            return SPathTok(("jobpath", self.tag))
+        if name == "_project":
+            return SProjOf(self)
+        if name == "document":
+            return self.doc
+        if name == "id":
+            return SPathTok(("id", self.tag))
+        if name == "init":
+            def init(*a, **k):
+                g["calls"].append(("init", self.tag))
+                return self
+            return NativeStub(init, "job.init")
+        raise Unsupported(f"job.{name} in sync wiring")
+
+    def sym_str(self, ex):
+        return OpaqueStr()
+
+
+class SProjOf(Sym):
+    def __init__(self, job):
+        self.job = job
+
+    def sym_contains(self, ex, x):
+        if x is self.job:
+            return SBool(z3.Bool(f"initialised_{x.tag}"))
+        raise Unsupported("in project")
+
+
+class SDocHandle(Sym):
+    def __init__(self, tag):
+        self.tag = tag
+
+    def sym_eq(self, ex, other):
+        if isinstance(other, SDocHandle):
+            return SBool(z3.Bool(f"docs_equal_{self.tag}_{other.tag}"))
+        raise Unsupported("document ==")
+
+
+class WiringCtx(FxCtx):
+    def __init__(self, contract, case):
+        super().__init__(contract, case)
+        self.externals[os.path.isdir] = lambda interp, p: SBool(z3.Bool("src_dir_exists"))
+
+
+def probe_exclude(patterns, reserved):
+    """do the patterns exclude exactly the reserved names (no more, no less) on a probe set of names?"""
+    probes = []
+    for n in reserved:
+        probes += [n, n + ".bak", n + "~", n.replace(".", "x", 1), "x" + n, n[:-1]]
+    for n in probes:
+        want = n in reserved
+        got = any(re.match(p, n) for p in patterns if isinstance(p, str))
+        if got != want:
+            return False, n
+    return True, None
+
+
+class SyncJobs(Contract):
+    target = f"{SY}.sync_jobs"
+    properties = ("C13", "C14", "C15")
+    ctx_class = WiringCtx
+    inline = (f"{SY}._FileModifyProxy.__init__", f"{SY}._log_more", f"{SY}.DocSync.ByKey.__init__")
+
+    def cases(self):
+        out = []
+        for dry in (False, True, "proxy"):
+            for ds in ("default", "NO_SYNC", "COPY", "custom"):
+                for excl_arg in (None, "pat", ["pat"]):
+                    out.append({"dry_run": dry, "doc_sync": ds, "exclude": excl_arg, "recursive": dry is not True, "deep": ds != "custom"})
+        return out
+
+    def setup(self, interp, case):
+        ex, ctx = interp.ex, interp.ctx
+        g = ctx.ghost
+        g["calls"] = []
+        src, dst = SJobStub("src", g), SJobStub("dst", g)
+        rp = interp.repo
+        rp.load(SY)
+        from signac.sync import DocSync
+        strategy = NativeStub(lambda *a: True, "strategy")
+        doc_sync = {"default": None, "NO_SYNC": DocSync.NO_SYNC, "COPY": DocSync.COPY,
+                    "custom": NativeStub(lambda s, d: g["calls"].append(("doc_sync", s, d)), "doc_sync")}[case["doc_sync"]]
+        if case["dry_run"] == "proxy":
+            dry = mk_file_proxy(interp, False, SPathTok("root"))
+        else:
+            dry = case["dry_run"]
+        g.update({"src": src, "dst": dst, "strategy": strategy, "dry": dry})
+        ctx.callee_contracts[f"{SY}._identical_path"] = lambda interp_, b: SBool(z3.Bool("identical_paths"))
+
+        def sjw(interp_, b):
+            g["calls"].append(("_sync_job_workspaces", b))
+            return None
+        ctx.callee_contracts[f"{SY}._sync_job_workspaces"] = sjw
+
+        def cdb(interp_, b):
+            from pyvc.interp import TransparentCM
+            g["calls"].append(("create_doc_backup", b["self"], b["doc"]))
+            return TransparentCM(SPathTok("dst_proxy"))
+        ctx.callee_contracts[f"{SY}._FileModifyProxy.create_doc_backup"] = cdb
+
+        def bykey_call(interp_, b):
+            g["calls"].append(("doc_sync", b["src"], b["dst"]))
+            return None
+        ctx.callee_contracts[f"{SY}.DocSync.ByKey.__call__"] = bykey_call
+        kw = dict(src=src, dst=dst, strategy=strategy, exclude=(list(case["exclude"]) if isinstance(case["exclude"], list) else case["exclude"]), doc_sync=doc_sync,
+                  recursive=case["recursive"], deep=case["deep"], dry_run=dry)
+        return [], kw, {}
+
+    def post(self, interp, case, pre, outcome):
+        from signac.job import Job
+        ex, g = interp.ex, interp.ctx.ghost
+        calls = g["calls"]
+        names = [c[0] for c in calls]
+        if outcome[0] == "raise":
+            ex.oblige(self.oname("raises:only_ValueError_for_identical_source_and_destination"),
+                      z3.And(z3.BoolVal(isinstance(outcome[1], ValueError) and calls == []), z3.Bool("identical_paths")), note=repr(outcome[1]))
+            return
+        ex.oblige(self.oname("ensures:uninitialised_source_means_nothing_happens"), z3.Implies(z3.Not(z3.Bool("initialised_src")), z3.BoolVal(calls == [])))
+        if case["dry_run"] is True:
+            ex.oblige(self.oname("frame:dry_run_never_initialises_the_destination"), z3.BoolVal("init" not in names))
+        sj = [c for c in calls if c[0] == "_sync_job_workspaces"]
+        ex.oblige(self.oname("ensures:files_synchronised_iff_the_source_directory_exists"),
+                  z3.Implies(z3.Bool("initialised_src"), z3.Bool("src_dir_exists") == z3.BoolVal(len(sj) == 1)))
+        for c in sj:
+            b = c[1]
+            px = b["copy"].selfobj if hasattr(b["copy"], "selfobj") else None
+            ok_fw = (b["src"] is g["src"] and b["dst"] is g["dst"] and b["strategy"] is g["strategy"] and b["recursive"] is case["recursive"] and b["deep"] is case["deep"]
+                     and px is not None and getattr(b["copytree"], "selfobj", None) is px)
+            ex.oblige(self.oname("call[_sync_job_workspaces]:forwards_strategy_recursive_deep_and_one_proxy_for_copy_and_copytree"), z3.BoolVal(bool(ok_fw)))
+            if px is not None:
+                want_dry = (g["dry"].fields["dry_run"] if case["dry_run"] == "proxy" else bool(case["dry_run"]))
+                ex.oblige(self.oname("call[_sync_job_workspaces]:proxy_carries_the_dry_run_flag"), z3.BoolVal(px.fields.get("dry_run") is want_dry and (case["dry_run"] != "proxy" or px is g["dry"])))
+            pats = b["exclude"]
+            reserved = [Job.FN_STATE_POINT] + ([] if case["doc_sync"] == "COPY" else [Job.FN_DOCUMENT])
+            user = [] if case["exclude"] is None else ["pat"]
+            ok_list = isinstance(pats, list) and all(isinstance(p, str) for p in pats) and [p for p in pats if p == "pat"] == user
+            ex.oblige(self.oname("call[_sync_job_workspaces]:exclude_is_a_list_keeping_the_user_patterns"), z3.BoolVal(bool(ok_list)))
+            if ok_list:
+                ok, witness = probe_exclude([p for p in pats if p != "pat"], reserved)
+                ex.oblige(self.oname("call[_sync_job_workspaces]:state_point_and_document_files_excluded_by_exact_name"), z3.BoolVal(ok), note=f"probe name {witness!r}")
+        ds = [c for c in calls if c[0] == "doc_sync"]
+        if case["doc_sync"] in ("NO_SYNC", "COPY"):
+            ex.oblige(self.oname("ensures:no_document_merge_for_NO_SYNC_and_COPY"), z3.BoolVal(ds == [] and "create_doc_backup" not in names))
+        else:
+            ex.oblige(self.oname("ensures:documents_merged_iff_they_differ_under_a_backup_through_the_proxy"),
+                      z3.Implies(z3.Bool("initialised_src"), z3.Not(z3.Bool("docs_equal_src_dst")) == z3.BoolVal(len(ds) == 1 and "create_doc_backup" in names)))
+            for c in ds:
+                ex.oblige(self.oname("call[doc_sync]:source_document_into_the_backup_proxy"),
+                          z3.BoolVal(c[1] is g["src"].doc and isinstance(c[2], SPathTok) and c[2].what == "dst_proxy"))
+
+
+class SyncProjectsCloneOrSync(Contract):
+    """sync_projects: schema gate before any effect, one proxy for everything, every option forwarded to the per-job sync"""
+    target = f"{SY}.sync_projects"
+    properties = ("C13", "C14", "C15")
+    ctx_class = WiringCtx
+    inline = (f"{SY}._FileModifyProxy.__init__", f"{SY}._log_more", f"{SY}.DocSync.ByKey.__init__")
+
+    def cases(self):
+        return [{"dry_run": d, "deep": dp, "recursive": r, "exists": e, "selection": s, "check_schema": cs}
+                for d in (False, True) for dp in (False, True) for r in (False, True) for e in (False, True) for s in (None, "ids") for cs in (True, False)
+                if (dp or not r) and (cs or not d)]
+
+    def loops(self, case):
+        inv = lambda interp, fr, i, seq: z3.BoolVal(True)
+        return {"enumerate(jobs_to_sync)": LoopSpec("jobs", inv, havoc={}, scratch=("i", "src_job"),
+                                                    heap_frame=lambda interp, fr, w: None)}
+
+    def setup(self, interp, case):
+        from signac.errors import DestinationExistsError
+        ex, ctx = interp.ex, interp.ctx
+        g = ctx.ghost
+        g["calls"] = []
+        strategy = NativeStub(lambda *a: True, "strategy")
+        doc_sync = NativeStub(lambda s, d: g["calls"].append(("project_doc_sync", s, d)), "doc_sync")
+        g["strategy"], g["doc_sync"] = strategy, doc_sync
+        the_job = SJobStub("j", g)
+        other_job = SJobStub("unselected", g)
+
+        class SProject(Sym):
+            def __init__(s, tag):
+                s.tag = tag
+                s.doc = SDocHandle("p" + tag)
+
+            def sym_eq(s, ex_, other):
+                return s is other
+
+            def sym_str(s, ex_):
+                return OpaqueStr()
+
+            def sym_iter(s, ex_):
+                return [the_job, other_job]
+
+            def sym_getattr(s, ex_, name):
+                if name in ("workspace", "path"):
+                    return SPathTok((name, s.tag))
+                if name == "document":
+                    return s.doc
+                if name == "detect_schema":
+                    def ds():
+                        g["calls"].append(("detect_schema", s.tag))
+                        return SSchema(s.tag)
+                    return NativeStub(ds, "detect_schema")
+                if name == "clone":
+                    def clone(job, copytree=None):
+                        g["calls"].append(("clone", job, copytree))
+                        if case["exists"]:
+                            raise RaiseSignal(DestinationExistsError(job))
+                        return job
+                    return NativeStub(clone, "clone")
+                if name == "open_job":
+                    def open_job(statepoint=None, id=None):
+                        g["calls"].append(("open_job", id))
+                        return SJobStub("dst_of_" + str(getattr(id, "what", id)), g)
+                    return NativeStub(open_job, "open_job")
+                raise Unsupported(f"project.{name}")
+
+        class SSchema(Sym):
+            def __init__(s, tag):
+                s.tag = tag
+
+            def sym_truth(s, ex_):
+                return z3.Bool(f"schema_nonempty_{s.tag}")
+
+            def sym_eq(s, ex_, other):
+                return SBool(z3.Bool("schemas_equal"))
+
+            def sym_getattr(s, ex_, name):
+                if name == "difference":
+                    return NativeStub(lambda other: SDiffSet(s.tag), "schema.difference")
+                raise Unsupported(name)
+
+        class SDiffSet(Sym):
+            def __init__(s, tag):
+                s.tag = tag
+
+            def sym_truth(s, ex_):
+                return z3.Bool(f"schema_diff_{s.tag}")
+
+        source, destination = SProject("src"), SProject("dst")
+        g.update({"source": source, "destination": destination, "job": the_job, "other": other_job})
+
+        def sync_jobs_stub(interp_, b):
+            g["calls"].append(("sync_jobs", b))
+            return None
+        ctx.callee_contracts[f"{SY}.sync_jobs"] = sync_jobs_stub
+
+        def cdb(interp_, b):
+            from pyvc.interp import TransparentCM
+            g["calls"].append(("create_doc_backup", b["self"], b["doc"]))
+            return TransparentCM(SPathTok("dst_proxy"))
+        ctx.callee_contracts[f"{SY}._FileModifyProxy.create_doc_backup"] = cdb
+        sel = None if case["selection"] is None else [the_job]
+        kw = dict(source=source, destination=destination, strategy=strategy, exclude="pat", doc_sync=doc_sync, selection=sel, check_schema=case["check_schema"],
+                  recursive=case["recursive"], deep=case["deep"], dry_run=case["dry_run"])
+        return [], kw, {}
+
+    def make_ctx(self, case):
+        ctx = super().make_ctx(case)
+
+        def comprehension(interp, node, frame):
+            import ast
+            # {str(j) for j in selection}  /  [job for job in source if job.id in selection]
+            src_txt = ast.unparse(node)
+            g = ctx.ghost
+            if src_txt == "{str(j) for j in selection}":
+                return SSelection()
+            if src_txt == "[job for job in source if job.id in selection]":
+                return [g["job"]]
+            return NotImplemented
+        ctx.comprehension = comprehension
+        ctx.listify = lambda ex, v, f: [ctx.ghost["job"], ctx.ghost["other"]]
+        orig = ctx.builtin_hook
+
+        def bh(interp, f, args, kw):
+            if f is list and args and args[0] is ctx.ghost["source"]:
+                return [ctx.ghost["job"], ctx.ghost["other"]]
+            return orig(interp, f, args, kw)
+        ctx.builtin_hook = bh
+        return ctx
+
+    def post(self, interp, case, pre, outcome):
+        from signac.errors import SchemaSyncConflict
+        ex, g = interp.ex, interp.ctx.ghost
+        calls = g["calls"]
+        names = [c[0] for c in calls]
+        effects = [c for c in calls if c[0] in ("clone", "sync_jobs", "project_doc_sync", "create_doc_backup", "open_job")]
+        if outcome[0] == "raise":
+            exc = outcome[1]
+            ex.oblige(self.oname("raises:SchemaSyncConflict_before_any_effect"), z3.BoolVal(isinstance(exc, SchemaSyncConflict) and effects == [] and case["check_schema"]), note=repr(exc))
+            return
+        clones = [c for c in calls if c[0] == "clone"]
+        sel_jobs = [g["job"]] if case["selection"] else [g["job"], g["other"]]
+        ex.oblige(self.oname("ensures:exactly_the_selected_jobs_are_cloned_or_synchronised"), z3.BoolVal([c[1] for c in clones] == sel_jobs))
+        pxs = {id(getattr(c[2], "selfobj", None)) for c in clones}
+        px = getattr(clones[0][2], "selfobj", None) if clones else None
+        ex.oblige(self.oname("call[clone]:copies_through_the_proxy_carrying_dry_run"),
+                  z3.BoolVal(px is not None and len(pxs) == 1 and px.fields.get("dry_run") is case["dry_run"] and getattr(clones[0][2], "func", None) is not None
+                             and clones[0][2].func.qual.endswith("_FileModifyProxy.copytree")))
+        sjs = [c[1] for c in calls if c[0] == "sync_jobs"]
+        ex.oblige(self.oname("ensures:existing_destination_jobs_are_synchronised_instead_of_cloned"), z3.BoolVal(len(sjs) == (len(sel_jobs) if case["exists"] else 0)))
+        for b in sjs:
+            ok = (b["strategy"] is g["strategy"] and b["exclude"] == "pat" and b["doc_sync"] is g["doc_sync"] and b["recursive"] is case["recursive"] and b["dry_run"] is px)
+            ex.oblige(self.oname("call[sync_jobs]:forwards_strategy_exclude_doc_sync_recursive_and_the_proxy"), z3.BoolVal(bool(ok)))
+            ex.oblige(self.oname("call[sync_jobs]:forwards_deep"), z3.BoolVal(b["deep"] is case["deep"]), note=f"deep={b['deep']!r}, requested {case['deep']!r}")
+
+
+class SSelection(Sym):
+    def sym_truth(self, ex):
+        return True
+
+    def sym_len(self, ex):
+        return 1
+
+    def sym_contains(self, ex, x):
+        return True
+
+
+CONTRACTS += [SyncJobs(), SyncProjectsCloneOrSync()]
+
+
+# ============================================================================= create_backup / create_doc_backup: roll-back on any exception
+Content = z3.DeclareSort("Content")
+ABSENT = z3.Const("ABSENT", Content)
+
+
+class BodyError(Exception):
+    pass
+
+
+class BackupCtx(Ctx):
+    def __init__(self, contract, case):
+        super().__init__(contract, case)
+        g = self.ghost
+        g["files"] = {}
+
+        def key(p):
+            return repr(p.what) if isinstance(p, SPathTok) else repr(p)
+
+        def copy2(interp, a, b):
+            g["files"][key(b)] = g["files"].get(key(a), ABSENT)
+        self.externals[shutil.copy2] = copy2
+        self.externals[os.remove] = lambda interp, p: g["files"].__setitem__(key(p), ABSENT)
+        self.externals[os.path.isfile] = lambda interp, p: SBool(g["files"].get(key(p), ABSENT) != ABSENT)
+        self.key = key
+
+
+class CreateBackup(Contract):
+    target = f"{SY}._FileModifyProxy.create_backup"
+    properties = ("C14", "C15")
+    ctx_class = BackupCtx
+    inline = (f"{SY}._FileModifyProxy._copy2", f"{SY}._FileModifyProxy._remove", f"{SY}._log_more")
+    callees = {"signac._utility._safe_relpath": stub_safe_relpath}
+
+    def cases(self):
+        return [{"dry_run": d, "body": b} for d in (False, True) for b in ("ok", "raises")]
+
+    def setup(self, interp, case):
+        g = interp.ctx.ghost
+        p = SPathTok("docfile")
+        orig = z3.Const("orig_content", Content)
+        interp.ex.assume(orig != ABSENT)
+        g["files"][interp.ctx.key(p)] = orig
+        g.update({"p": p, "orig": orig})
+        return [mk_file_proxy(interp, case["dry_run"], None), p], {}, {}
+
+    def yield_hook(self, interp, case, pre):
+        def hook(v):
+            g = interp.ctx.ghost
+            g["yielded"] = v
+            g["backup_at_yield"] = g["files"].get(interp.ctx.key(SPathTok(("backup", g["p"]))), ABSENT)
+            if not case["dry_run"]:
+                # the body may rewrite the document file arbitrarily
+                g["files"][interp.ctx.key(g["p"])] = z3.Const("content_written_by_body", Content)
+            if case["body"] == "raises":
+                raise RaiseSignal(BodyError("doc sync failed"))
+        return hook
+
+    def post(self, interp, case, pre, outcome):
+        ex, g = interp.ex, interp.ctx.ghost
+        key = interp.ctx.key
+        cur = g["files"].get(key(g["p"]), ABSENT)
+        bak = g["files"].get(key(SPathTok(("backup", g["p"]))), ABSENT)
+        ex.oblige(self.oname("ensures:backup_file_is_removed_in_every_case"), bak == ABSENT)
+        if case["dry_run"]:
+            ex.oblige(self.oname("frame:dry_run_touches_no_file"), cur == g["orig"])
+        elif "backup_at_yield" in g:
+            ex.oblige(self.oname("ensures:backup_holds_the_original_while_the_body_runs"), g["backup_at_yield"] == g["orig"])
+        if case["body"] == "raises":
+            ex.oblige(self.oname("raises:body_exception_propagates"), z3.BoolVal(outcome[0] == "raise" and isinstance(outcome[1], BodyError)))
+            ex.oblige(self.oname("raises:document_file_restored_to_its_pre_sync_content"), cur == g["orig"])
+        else:
+            ex.oblige(self.oname("ensures:normal_exit"), z3.BoolVal(outcome[0] == "return"), note=repr(outcome[1]))
+
+
+DocC = z3.DeclareSort("DocC")
+EMPTYDOC = z3.Const("EMPTYDOC", DocC)
+doc_upd = z3.Function("doc_upd", DocC, DocC, DocC)
+
+
+class SDocObj(Sym):
+    """a document object whose whole content is an abstract term (dict semantics of the dependency: update(empty, x) == x)"""
+
+    def __init__(self, c, has_file):
+        self.c, self.has_file = c, has_file
+
+    def sym_len(self, ex):
+        from pyvc.core import SInt
+        n = z3.Int("doc_len")
+        ex.assume(z3.And(n >= 0, (n == 0) == (self.c == EMPTYDOC)))
+        return SInt(n)
+
+    def sym_getattr(self, ex, name):
+        if name in ("filename", "_filename"):
+            if self.has_file:
+                return SPathTok("docfile")
+            raise RaiseSignal(AttributeError(name))
+        if name == "clear":
+            return NativeStub(lambda: setattr(self, "c", EMPTYDOC), "doc.clear")
+        if name == "keys":
+            return NativeStub(lambda: SKeyList(), "doc.keys")
+        raise Unsupported(f"doc.{name}")
+
+
+class CreateDocBackup(Contract):
+    target = f"{SY}._FileModifyProxy.create_doc_backup"
+    properties = ("C14", "C15")
+    ctx_class = BackupCtx
+    inline = (f"{SY}._DocProxy.__init__", f"{SY}._DocProxy.__len__", f"{SY}._DocProxy.clear")
+
+    def cases(self):
+        return [{"dry_run": d, "body": b, "kind": k} for d in (False, True) for b in ("ok", "raises") for k in ("memory", "file")]
+
+    def make_ctx(self, case):
+        import copy
+        ctx = super().make_ctx(case)
+        g = ctx.ghost
+
+        def deepcopy(interp, v):
+            if isinstance(v, SDocObj):
+                return SDocObj(v.c, False)
+            raise Unsupported("deepcopy")
+        ctx.externals[copy.deepcopy] = deepcopy
+
+        def upd(interp, b):
+            # callee view of _DocProxy.update (DpUpdate): live: every key of `other` assigned; dry run: nothing
+            px, other = b["self"], b["other"]
+            if not px.fields["dry_run"]:
+                d = px.fields["doc"]
+                d.c = doc_upd(d.c, other.c)
+            return None
+        ctx.callee_contracts[f"{SY}._DocProxy.update"] = upd
+
+        def cb(interp, b):
+            from pyvc.interp import TransparentCM
+            g["create_backup_called_with"] = b["path"]
+            return TransparentCM(SPathTok("backup-path"))
+        ctx.callee_contracts[f"{SY}._FileModifyProxy.create_backup"] = cb
+        return ctx
+
+    def setup(self, interp, case):
+        ex, g = interp.ex, interp.ctx.ghost
+        orig = z3.Const("orig_doc", DocC)
+        x = z3.Const("ux", DocC)
+        ex.assume(z3.ForAll([x], doc_upd(EMPTYDOC, x) == x))
+        doc = SDocObj(orig, case["kind"] == "file")
+        if case["kind"] == "file":
+            ex.assume(orig != EMPTYDOC)
+            g["files"][interp.ctx.key(SPathTok("docfile"))] = z3.Const("some_content", Content)
+            ex.assume(z3.Const("some_content", Content) != ABSENT)
+        g.update({"doc": doc, "orig": orig})
+        return [mk_file_proxy(interp, case["dry_run"], None), doc], {}, {}
+
+    def yield_hook(self, interp, case, pre):
+        def hook(v):
+            g = interp.ctx.ghost
+            g["yielded"] = v
+            if case["kind"] == "memory" and not case["dry_run"]:
+                g["doc"].c = z3.Const("doc_written_by_body", DocC)      # the merge may have changed the document arbitrarily
+            if case["body"] == "raises":
+                raise RaiseSignal(BodyError("conflict"))
+        return hook
+
+    def post(self, interp, case, pre, outcome):
+        ex, g = interp.ex, interp.ctx.ghost
+        y = g.get("yielded")
+        ok_proxy = isinstance(y, Obj) and y.cls.name == "_DocProxy" and y.fields.get("doc") is g["doc"] and y.fields.get("dry_run") is case["dry_run"]
+        ex.oblige(self.oname("ensures:yields_a_proxy_of_the_document_carrying_dry_run"), z3.BoolVal(bool(ok_proxy)))
+        if case["kind"] == "file":
+            cb = g.get("create_backup_called_with")
+            ex.oblige(self.oname("ensures:file_backed_documents_are_protected_by_a_file_backup"), z3.BoolVal(isinstance(cb, SPathTok) and cb.what == "docfile"))
+        if case["body"] == "raises":
+            ex.oblige(self.oname("raises:body_exception_propagates"), z3.BoolVal(outcome[0] == "raise" and isinstance(outcome[1], BodyError)), note=repr(outcome[1]))
+            if case["kind"] == "memory":
+                ex.oblige(self.oname("raises:in_memory_document_rolled_back_to_its_pre_sync_content"), g["doc"].c == g["orig"])
+        else:
+            ex.oblige(self.oname("ensures:normal_exit"), z3.BoolVal(outcome[0] == "return"), note=repr(outcome[1]))
+
+
+CONTRACTS += [CreateBackup(), CreateDocBackup()]
